@@ -55,25 +55,39 @@ const PI_4: DD = DD {
     lo: 3.061616997868383e-17,
 };
 
+thread_local! {
+    /// 1/k! in double-double, k = 0..33
+    static INV_FACT: Vec<DD> = {
+        let mut v = vec![DD::from(1.0)];
+        let mut f = DD::from(1.0);
+        for k in 1..34 {
+            f = f * DD::from(k as f64);
+            v.push(DD::from(1.0) / f);
+        }
+        v
+    };
+    /// twiddle tables of the power-of-two FFT, keyed by length: exp(-2 pi i k/n), k < n/2
+    static POW2_TW: std::cell::RefCell<std::collections::HashMap<usize, std::rc::Rc<Vec<CDD>>>> = Default::default();
+}
+
 /// sin and cos of (pi/4) * (num/den) with 0 <= num <= den, in double-double
 fn sincos_octant(num: u64, den: u64) -> (DD, DD) {
     // x = pi/4 * num/den  in [0, pi/4]
     let frac = DD::from(num as f64) / DD::from(den as f64);
     let x = PI_4 * frac;
     let x2 = x * x;
-    // Taylor series; |x| <= 0.786, 28 terms gives < 1e-33
-    let mut s = x;
-    let mut c = DD::from(1.0);
-    let mut term_s = x;
-    let mut term_c = DD::from(1.0);
-    for i in 1..16 {
-        let k = (2 * i) as f64;
-        term_c = -(term_c * x2) / DD::from((k - 1.0) * k);
-        term_s = -(term_s * x2) / DD::from(k * (k + 1.0));
-        c = c + term_c;
-        s = s + term_s;
-    }
-    (s, c)
+    // Taylor series by Horner; |x| <= 0.786, terms up to x^33/33! < 1e-40
+    INV_FACT.with(|inv| {
+        let mut c = inv[32];
+        let mut s = inv[33];
+        let mut k = 30i32;
+        while k >= 0 {
+            c = inv[k as usize] - x2 * c;
+            s = inv[k as usize + 1] - x2 * s;
+            k -= 2;
+        }
+        (s * x, c)
+    })
 }
 
 /// exp(-2 pi i k / n)
@@ -151,16 +165,13 @@ fn fft_pow2(buf: &mut [CDD], inverse: bool) {
             buf.swap(i, j);
         }
     }
-    let tw: Vec<CDD> = (0..n / 2)
-        .map(|k| {
-            let t = twiddle(k as u64, n as u64);
-            if inverse {
-                t.conj()
-            } else {
-                t
-            }
-        })
-        .collect();
+    let fwd_tw = POW2_TW.with(|m| {
+        m.borrow_mut()
+            .entry(n)
+            .or_insert_with(|| std::rc::Rc::new((0..n / 2).map(|k| twiddle(k as u64, n as u64)).collect()))
+            .clone()
+    });
+    let tw: Vec<CDD> = if inverse { fwd_tw.iter().map(|t| t.conj()).collect() } else { fwd_tw.to_vec() };
     let mut len = 2;
     while len <= n {
         let step = n / len;
